@@ -4,7 +4,13 @@
    lists, the isinstance table); every theorem about the code's behaviour holds
    for every T that passes the boolean check [tables_ok], and
    [repo_tables_are_the_documented_ones] shows that the tables regenerated
-   from /repo pass it and equal the documented (pinned) ones. *)
+   from /repo pass it and equal the documented (pinned) ones.
+
+   [noshare T ops]: no operation of the history gives a client a transport
+   object that ANOTHER client currently holds (the code raises
+   Exception('Duplicate domains') there; one transport object serves one
+   client at a time).  Giving a client a transport object that was released,
+   by itself or by another client, is covered. *)
 From SV Require Import Lib.Base C14.Model C14.RefineProofs C14.FollowProofs.
 Local Open Scope N_scope.
 
@@ -15,23 +21,27 @@ Proof. split; vm_compute; reflexivity. Qed.
 Print Assumptions repo_tables_are_the_documented_ones.
 
 (* REFINEMENT, histories of any length: the model of suds/properties.py
-   (Properties graph, Link/Endpoint bookkeeping, provider search with history,
-   validate -> nvl -> store -> TpLinker.updated, Client.clone) answers every
-   operation of every history exactly like the specification that keeps one
-   map per client and per transport object. *)
+   (Properties graph, Link/Endpoint bookkeeping incl. teardown and re-linking
+   of released transport objects, provider search with history, validate ->
+   nvl -> store -> TpLinker.updated), of Client.clone with
+   Transport.__deepcopy__, and of what a transport hands to urllib on a send
+   answers every operation of every history exactly like the specification
+   that keeps one map per client and per transport object. *)
 Theorem options_refine_map :
   forall T, tables_ok T = true ->
-  forall ops, snd (run T (init T) ops) = snd (srun T false (sinit T) ops).
+  forall ops, noshare T ops = true ->
+              snd (run T (init T) ops) = snd (srun T false (sinit T) ops).
 Proof. exact options_refine_map_l. Qed.
 Print Assumptions options_refine_map.
 
 (* the same, for the code's own tables against the documented ones *)
 Theorem repo_options_refine_documented_spec :
-  forall ops, snd (run gen_tables (init gen_tables) ops)
+  forall ops, noshare pinned_tables ops = true ->
+              snd (run gen_tables (init gen_tables) ops)
               = snd (srun pinned_tables false (sinit pinned_tables) ops).
 Proof.
-  intro ops. destruct repo_tables_are_the_documented_ones as [E H].
-  rewrite <- E. apply options_refine_map_l. exact H.
+  intros ops HG. destruct repo_tables_are_the_documented_ones as [E H].
+  rewrite <- E in *. apply options_refine_map_l; assumption.
 Qed.
 Print Assumptions repo_options_refine_documented_spec.
 
@@ -40,19 +50,37 @@ Print Assumptions repo_options_refine_documented_spec.
 Theorem set_then_get :
   forall T, tables_ok T = true ->
   forall ops c name v st',
+    noshare T (ops ++ [St (NC c) name v]) = true ->
     let st := fst (run T (init T) ops) in
-    c < nextc st ->
     step T st (St (NC c) name v) = (st', OOk) ->
     exists d, (find_def (cdefs T) name = Some d \/ find_def (tdefs T) name = Some d)
               /\ get T st' (NC c) name = OVal (nvl d v).
 Proof. exact set_then_get_l. Qed.
 Print Assumptions set_then_get.
 
+(* "transport options set on the client are the ones its transport uses":
+   after an accepted assignment of a transport option through the client, the
+   client's transport object reads that value from its OWN options -- which
+   is what [tuse] hands to urllib on every send (timeout, ProxyHandler,
+   credentials) -- in any reachable state, whichever transport object the
+   client holds at that moment *)
+Theorem send_uses_what_was_set :
+  forall T, tables_ok T = true ->
+  forall ops c name v d st',
+    noshare T (ops ++ [St (NC c) name v]) = true ->
+    let st := fst (run T (init T) ops) in
+    find_def (tdefs T) name = Some d ->
+    step T st (St (NC c) name v) = (st', OOk) ->
+    exists tv, get T st' (NC c) name_transport = OVal tv /\ is_transport T tv = true
+               /\ get T st' (tnode tv) name = OVal (nvl d v).
+Proof. exact send_uses_what_was_set_l. Qed.
+Print Assumptions send_uses_what_was_set.
+
 (* a value of the wrong type or an unknown option name, through any object,
    in any state: AttributeError and the state is unchanged *)
 Theorem invalid_has_no_effect :
   forall T st n name v,
-    exists_node st n = true ->
+    exists_node st n = true -> vexists T st v = true ->
     (forall d, find_def (cdefs T) name = Some d \/ find_def (tdefs T) name = Some d ->
                validate T d v = false) ->
     step T st (St n name v) = (st, OAttrErr).
@@ -66,36 +94,95 @@ Proof. exact attr_error_no_effect_l. Qed.
 Print Assumptions attr_error_no_effect.
 
 (* after any history every client is linked to exactly the options of the
-   transport stored in its `transport` option, and every transport's options
-   only to that client: a replaced transport no longer sees the client *)
+   transport object stored in its `transport` option, that transport's options
+   only to that client, and the options of a transport object no client holds
+   to nothing *)
 Theorem link_invariant :
-  forall T (H : tables_ok T = true) ops, INV T (fst (run T (init T) ops)).
+  forall T (H : tables_ok T = true) ops,
+    noshare T ops = true -> INV T (fst (run T (init T) ops)).
 Proof. exact link_invariant_l. Qed.
 Print Assumptions link_invariant.
 
-(* clone: starts with the values of the original; does not disturb existing
-   clients *)
+(* Link.teardown: replacing a client's transport releases the old transport
+   object -- no client holds it, its options are linked to nothing, they read
+   their own values and no client option any more *)
+Theorem released_transport_is_detached :
+  forall T, tables_ok T = true ->
+  forall ops c v st' a i,
+    noshare T (ops ++ [St (NC c) name_transport v]) = true ->
+    let st := fst (run T (init T) ops) in
+    step T st (St (NC c) name_transport v) = (st', OOk) ->
+    cur T st c = Some (NT a i) -> cur T st' c <> Some (NT a i) ->
+    (forall c1, cur T st' c1 <> Some (NT a i))
+    /\ links T st' (NT a i) = []
+    /\ forall name, get T st' (NT a i) name =
+                    if has_def T (NT a i) name then OVal (defined T st' (NT a i) name) else OAttrErr.
+Proof.
+  intros T H ops c v st' a i HG st E Hc Hne.
+  assert (Hno : forall c1, cur T st' c1 <> Some (NT a i))
+    by (eapply replace_releases_l; eauto).
+  split; [exact Hno|].
+  assert (Hst : st' = fst (run T (init T) (ops ++ [St (NC c) name_transport v]))).
+  { rewrite run_app. fold st. cbn [run]. rewrite E. reflexivity. }
+  rewrite Hst in *. apply unheld_transport_l; assumption.
+Qed.
+Print Assumptions released_transport_is_detached.
+
+(* ... and a transport object nobody holds (never used, or released by ANY
+   client) can be given to any client: accepted, linked, and the client reads
+   the transport's own values from then on *)
+Theorem released_transport_can_be_handed_over :
+  forall T, tables_ok T = true ->
+  forall ops c v d,
+    noshare T ops = true ->
+    let st := fst (run T (init T) ops) in
+    c < nextc st -> owner (tnode v) < nextc st ->
+    find_def (cdefs T) name_transport = Some d -> validate T d v = true ->
+    is_transport T v = true -> is_none v = false ->
+    (forall c1, cur T st c1 <> Some (tnode v)) ->
+    exists st', step T st (St (NC c) name_transport v) = (st', OOk)
+      /\ INV T st' /\ cur T st' c = Some (tnode v)
+      /\ forall name, has_def T (tnode v) name = true ->
+                      get T st' (NC c) name = OVal (defined T st (tnode v) name).
+Proof. exact handover_l. Qed.
+Print Assumptions released_transport_can_be_handed_over.
+
+(* clone: starts with the values of the original (its transport is a NEW
+   transport object of the same class); does not disturb existing clients and
+   transports *)
 Theorem clone_copies :
   forall T, tables_ok T = true ->
-  forall ops c name,
+  forall ops c,
+    noshare T ops = true ->
     let st := fst (run T (init T) ops) in
     c < nextc st ->
     let st' := fst (step T st (Cl c)) in
-    get T st' (NC (nextc st)) name = get T st (NC c) name
-    /\ (forall m, owner m < nextc st -> get T st' m name = get T st m name).
+    let k := nextc st in
+    (forall name, name <> name_transport -> get T st' (NC k) name = get T st (NC c) name)
+    /\ (forall tv, get T st (NC c) name_transport = OVal tv ->
+          if is_transport T tv
+          then get T st' (NC k) name_transport = OVal (fst tv, tid k (tidx (tnode tv)))
+               /\ cur T st' k = Some (NT k (tidx (tnode tv)))
+          else get T st' (NC k) name_transport = OVal tv)
+    /\ (forall m name, owner m < nextc st -> get T st' m name = get T st m name).
 Proof. exact clone_copies_l. Qed.
 Print Assumptions clone_copies.
 
-(* independence in both directions: any sequence of assignments addressed to
-   client k (original or clone; through its options or its transports'
-   options; valid or not) leaves every read through any other client or its
-   transports unchanged *)
+(* independence in both directions: any sequence of assignments on client
+   k's side (original or clone; through its options, through the options of
+   the transport it holds at that moment or of a transport nobody holds;
+   valid or not; replacing its transport) leaves every read through any other
+   client m and through m's transport, and what m's transport uses on a send,
+   unchanged *)
 Theorem clone_independent_both_ways :
   forall T, tables_ok T = true ->
-  forall ops1 ops2 k m name,
-    Forall (only_client k) ops2 -> owner m <> k ->
+  forall ops1 ops2 k m,
+    noshare T (ops1 ++ ops2) = true -> m <> k ->
     let st := fst (run T (init T) ops1) in
-    get T (fst (run T st ops2)) m name = get T st m name.
+    on_side T k st ops2 = true ->
+    let st' := fst (run T st ops2) in
+    (forall x nm, x = NC m \/ cur T st m = Some x -> get T st' x nm = get T st x nm)
+    /\ use T st' m = use T st m.
 Proof. exact independent_l. Qed.
 Print Assumptions clone_independent_both_ways.
 
@@ -105,16 +192,17 @@ Print Assumptions clone_independent_both_ways.
    fails on  client.set_options(timeout=5); client.set_options(transport=HttpTransport());
    client.options.timeout  -- the model (and the code) answer 90, the property says 5. *)
 Theorem follow_refuted :
-  exists ops, snd (run gen_tables (init gen_tables) ops)
+  exists ops, noshare pinned_tables ops = true /\
+              snd (run gen_tables (init gen_tables) ops)
               <> snd (srun pinned_tables true (sinit pinned_tables) ops).
-Proof. exists follow_witness. exact follow_refuted_l. Qed.
+Proof. exists follow_witness. split; [vm_compute; reflexivity|exact follow_refuted_l]. Qed.
 Print Assumptions follow_refuted.
 
 (* ... and holds on every history in which no client replaces its transport
    after a transport option was assigned through it *)
 Theorem follow_partial :
   forall T, tables_ok T = true ->
-  forall ops, follow_guard T ops = true ->
+  forall ops, noshare T ops = true -> follow_guard T ops = true ->
               snd (run T (init T) ops) = snd (srun T true (sinit T) ops).
 Proof. exact follow_partial_l. Qed.
 Print Assumptions follow_partial.
@@ -122,6 +210,29 @@ Print Assumptions follow_partial.
 (* ------------------------------------------------------------------ *)
 (* non-vacuity                                                         *)
 (* ------------------------------------------------------------------ *)
+
+(* [noshare] admits histories that re-use released transport objects: A, then
+   B, then A again; and a transport released by client 0 given to its clone;
+   it rejects giving the clone the transport client 0 still holds *)
+Example noshare_nonvacuous :
+  noshare pinned_tables
+    [St (NC 0) name_transport (15, 1); St (NC 0) name_transport (16, 0);
+     St (NC 0) name_transport (15, 1); Cl 0; St (NC 1) name_transport (16, 0);
+     St (NC 1) name_timeout (2, 7); Gt (NT 0 0) name_timeout; Us 1] = true
+  /\ noshare pinned_tables [Cl 0; St (NC 1) name_transport (16, 0)] = false.
+Proof. vm_compute. split; reflexivity. Qed.
+
+(* the handed-over transport object: the clone reads and uses what is set on
+   it, client 0 (which released it) does not; client-domain names are not
+   readable through a released transport *)
+Example handover_nonvacuous :
+  snd (run gen_tables (init gen_tables)
+         [St (NC 0) name_timeout (2, 5); St (NC 0) name_transport (15, 1);
+          Gt (NT 0 0) 5; Cl 0; St (NC 1) name_transport (16, 0);
+          Gt (NC 1) name_timeout; St (NT 0 0) name_timeout (2, 7);
+          Gt (NC 1) name_timeout; Gt (NC 0) name_timeout; Gt (NT 0 0) 5])
+  = [OOk; OOk; OAttrErr; OOk; OOk; OVal (2, 5); OOk; OVal (2, 7); OVal (2, 90); OVal (1, 1)].
+Proof. vm_compute. reflexivity. Qed.
 
 (* the guard of follow_partial admits histories that replace the transport
    and then assign transport options through the client *)
@@ -149,12 +260,32 @@ Example invalid_nonvacuous :
      = [OOk; OVal (2, 5); OOk; OVal (2, 90)].
 Proof. vm_compute. repeat split; reflexivity. Qed.
 
-(* independence is about histories that really assign on both sides *)
+(* what a send uses follows every change: proxy set, send, proxy changed,
+   send, proxy reset, send, credentials; an HttpTransport sends none *)
+Example send_nonvacuous :
+  snd (run gen_tables (init gen_tables)
+         [St (NC 0) name_proxy (6, 1); Us 0; St (NT 0 0) name_proxy (6, 2); Us 0;
+          St (NC 0) name_proxy (0, 0); St (NC 0) name_username (4, 0); Us 0;
+          St (NC 0) name_password (4, 1); Us 0; Uo (NT 0 0) 16; Uo (NT 0 0) 15])
+  = [OOk; OW [6010; 2100; 6011; 10; 10]; OOk; OW [6010; 2100; 6012; 10; 10];
+     OOk; OOk; OW [6010; 2100; 6010; 10; 10];
+     OOk; OW [6010; 2100; 6010; 4010; 4011]; OW [2100; 6010; 4010; 4011]; OW [2100; 6010; 10; 10]].
+Proof. vm_compute. reflexivity. Qed.
+
+(* independence is about histories that really assign on both sides, with a
+   transport derived directly from suds.transport.Transport (tag 17) *)
 Example independence_nonvacuous :
   snd (run gen_tables (init gen_tables)
-         [St (NC 0) name_timeout (2, 5); Cl 0; Gt (NC 1) name_timeout;
+         [St (NC 0) name_transport (17, 2); St (NC 0) name_timeout (2, 5); Cl 0;
+          Gt (NC 1) name_timeout; Gt (NC 1) name_transport;
           St (NC 1) name_timeout (2, 7); Gt (NC 0) name_timeout;
-          St (NC 0) name_timeout (2, 1); Gt (NC 1) name_timeout])
-  = [OOk; OOk; OVal (2, 5); OOk; OVal (2, 5); OOk; OVal (2, 7)]
-  /\ Forall (only_client 1) [St (NC 1) name_timeout (2, 7); St (NT 1 0) name_timeout (2, 1)].
-Proof. split; [vm_compute; reflexivity|repeat constructor]. Qed.
+          St (NT 0 2) name_timeout (2, 1); Gt (NC 1) name_timeout; Gt (NC 0) name_timeout])
+  = [OOk; OOk; OOk; OVal (2, 5); OVal (17, 10); OOk; OVal (2, 5); OOk; OVal (2, 7); OVal (2, 1)]
+  /\ on_side gen_tables 1 (fst (run gen_tables (init gen_tables)
+                                  [St (NC 0) name_transport (17, 2); Cl 0]))
+       [St (NC 1) name_timeout (2, 7); St (NT 1 2) name_timeout (2, 1);
+        St (NC 1) name_transport (15, 9); St (NT 1 2) name_timeout (2, 0)] = true
+  /\ on_side gen_tables 1 (fst (run gen_tables (init gen_tables)
+                                  [St (NC 0) name_transport (17, 2); Cl 0]))
+       [St (NT 0 2) name_timeout (2, 7)] = false.
+Proof. vm_compute. repeat split; reflexivity. Qed.
